@@ -194,3 +194,14 @@ Definition claimable (c : scfg) (s : sys) (m : N) : Prop :=
 Definition committed_final (c : scfg) (s : sys) (e : L1.env) (idx lo hi v : N) (bh : bytes) : Prop :=
   ∃ x o, L1.configs (l1 s) !! bid c = Some x ∧ L1.outputs (l1 s) !! (bid c, idx) = Some o ∧
          L1.o_root o = honest_root c (l2 s) lo hi v bh ∧ L1.is_final x e o = true.
+
+(* [n] consecutive sequences starting at [lo] *)
+Fixpoint seq_from (n : nat) (lo : N) : list N :=
+  match n with O => [] | S n' => lo :: seq_from n' (lo + 1)%N end.
+(* the relays of the listed event sequences by executor [ex] at L1 height [height]; [hk k] is the
+   structural description of the hook payload of event k *)
+Definition relay_steps (ex : bytes) (height : N) (hk : N → L2.hookp) (ks : list N) : list smsg :=
+  map (λ k, SRelay k ex height (hk k)) ks.
+(* the emitted but not yet relayed sequences, in order *)
+Definition pending_seqs (c : scfg) (s : sys) : list N :=
+  seq_from (N.to_nat (L1.seq_of (l1 s) (bid c) - L2.next_l1 (l2 s))) (L2.next_l1 (l2 s)).
